@@ -210,7 +210,7 @@ theorem parseFieldType_good {P : Token → Prop} {ts : List Token} (h : TsOk P t
     have k1 := hr.ok_of h1
     simp only
     cases typeOfTok (cur ts1).tok with
-    | none => simp only; split; exact cur_err k1; exact k1
+    | none => simp only; split <;> exact cur_err k1
     | some ft =>
       simp only
       split
